@@ -68,10 +68,14 @@ def compare_pair(ex, what=("notes", "blame"), strict_prompts=True, files=None):
     if "notes" in what:
         na, nb = Notes(a.w, ra).canonical_map(), Notes(b.w, rb).canonical_map()
         if not strict_prompts:
+            # sessions are compared where they attest lines; a prompt record that no line refers to
+            # (metadata carried along for a commit without AI lines) is not part of the attestation
             for m in (na, nb):
                 for c in m:
                     if isinstance(m[c], dict):
-                        m[c] = {"files": m[c]["files"]}
+                        used = {h for per in m[c]["files"].values() for h in per}
+                        m[c] = {"files": m[c]["files"],
+                                "prompts": {h: v for h, v in m[c]["prompts"].items() if h in used}}
         if na != nb:
             diff = {}
             for c in sorted(set(na) | set(nb)):
